@@ -52,12 +52,12 @@ CHECKS = {
              text='K: for every array content and bounds array within the size bound, distinct iterations of the OpenMP loop touch disjoint shared locations (so every schedule gives the '
                   'sequential result), every read is in bounds, and out[i] is the pairwise kernel applied to segment i.  X: for every size, chunk size, index selection (repeats), container kind '
                   'and output buffer within the bound, cell (i,j) of jaccarddist_array/matrix/pairwise holds the value for (queries[i], refs[sel[j]]); pairwise is symmetric with zero diagonal; chunk_slices partitions 0..n.',
-             note='Trusted: as C02; the OpenMP runtime and the compiler honouring Cython\'s private/shared classification; tagged stubs for the Cython entry points in the X part.  HDF5Signatures and real thread counts are outside.',
+             note='Trusted: as C02; the OpenMP runtime and the compiler honouring Cython\'s private/shared classification; tagged stubs for the Cython entry points in the X part.  Real thread counts are outside.',
              ref='3/C05'),
- 'C06': dict(engine='K', technique='bounded model checking: two symbolic executions of calc_signature per obligation (original vs reverse-complemented / reordered / case-flipped input), equality of the accumulated sets decided by SMT; compression choice over a symbolic file header',
+ 'C06': dict(engine='KX', technique='bounded model checking: two symbolic executions of calc_signature per obligation (original vs reverse-complemented / reordered / case-flipped input), equality of the accumulated sets decided by SMT; compression choice over a symbolic file header; CrossHair-driven exhaustive case split over file-form pools through the real decompression / text / FASTA parser layers',
              text='Strand symmetry per contig, contig-order independence, signature = union of per-contig signatures (no k-mer across a boundary) and case '
                   'invariance hold for every byte string within the bound; gzip is chosen iff the header is 1f 8b regardless of the name.',
-             note='Trusted: as C01; open/gzip/TextIOWrapper replaced by tagging stubs.  FASTA parsing, line endings and the gzip codec are outside (library code behind I/O).',
+             note='Trusted: as C01; open/gzip/TextIOWrapper replaced by tagging stubs in the K part; in the X part only `open` is replaced (in-memory files).  File-level claims are bounded-exhaustive over pools of genomes and forms.',
              ref='3/C06'),
  'C02': dict(engine='K', technique='bounded model checking: metric.pyx + gambit.metric translated to SMT (QF_BV merge stage per dtype pair and length bound, QF_FP float stage over all N,M,u < 2^24), z3 + cvc5',
              text='For every pair of sorted duplicate-free arrays up to the length bound, in every accepted dtype pair, the merge loop of the current '
@@ -94,7 +94,7 @@ CHECKS = {
              text='K: for every integer dtype, every entry value and every collection length below 2^31 the index array reaching _getitem_int_array holds the list-semantics positions, '
                   'out-of-range raises IndexError and the caller\'s array is untouched.  X: every int index, slice triple, index list, mask, 2-3 step mutation sequence and equality variant '
                   'within the bound behaves like numpy indexing of a plain list on the real containers.',
-             note='Trusted: z3/cvc5, the kbmc numpy model (comparison, astype/copy aliasing, np.add with out/where casting), numpy itself as the oracle for which positions an index selects.  HDF5Signatures is outside.',
+             note='Trusted: z3/cvc5, the kbmc numpy model (comparison, astype/copy aliasing, np.add with out/where casting), numpy itself as the oracle for which positions an index selects.  HDF5Signatures is included through a real file written at harness import.',
              ref='3/C20'),
 }
 
